@@ -31,6 +31,11 @@ def leg_a(ctx):
 
 def run(ctx, pool):
     tw, stats = pc.record_processes(ctx, ctx.n(600, 20000), ctx.n(48, 1500), {"with_std": False, "with_ref": True})
+    twc, stc = pc.record_processes(ctx, ctx.n(300, 10000), ctx.n(8, 300), {"with_std": False}, coarse=True)     # coarse steps: most raise
+    tw.traces.extend(twc.traces)
+    stats["nontrivial"] |= stc["nontrivial"]
+    for k, v in stc["outcomes"].items():
+        stats["outcomes"]["coarse_" + k] = v
     res = core.validate_traces(None, ctx, tw, pool, "Trace_Process.tla", "Trace_Process_C01.cfg")
     return pc.finish(res, tw, stats, CLAUSES, pc.RULE)
 
